@@ -254,6 +254,82 @@ Definition doc_forceesmtp (s : rsession) (fs : fsys) : option dout :=
       Some (dplain s (rbl_outcome (doc_rbl answers false)) t)
   end.
 
+(** ** dnsbl / namebl: DNS lists.  [doc_walk]: the oracle's answers for a sequence of lookups; the first listing
+    decides and names its list; a local resolver error before it is an error; temporary errors without a listing
+    make the result temporary *)
+Inductive walkres := WHit (name : bytes) | WNone | WAgain | WLocal.
+
+Fixpoint doc_walk (names : list bytes) (dns : list N) (again : bool) : walkres * list N :=
+  match names with
+  | [] => ((if again then WAgain else WNone), dns)
+  | nm :: rest =>
+      let '(a, dns') := match dns with [] => (0%N, []) | x :: d => (x, d) end in
+      if N.eqb a DNS_LOCAL then (WLocal, dns')
+      else if N.eqb a DNS_TEMP then doc_walk rest dns' true
+      else if N.eqb a DNS_PERM || N.eqb a 0 || N.ltb 240 a then doc_walk rest dns' again
+      else (WHit nm, dns')
+  end.
+
+(** dnsbl: a client listed in one of the usable lists of the effective dnsbl file (user / domain / global, with
+    "!inherit") is refused with the filter's own 501 naming the list, unless it is also listed in a list of the
+    effective whitednsbl file (user / domain only) *)
+Definition doc_dnsbl (s : rsession) (fs : fsys) : option dout :=
+  let fnb := if r_ipv4 s then NAME_DNSBL else NAME_DNSBL ++ SUFFIX_V6 in
+  let fnw := if r_ipv4 s then NAME_WHITEDNSBL else NAME_WHITEDNSBL ++ SUFFIX_V6 in
+  let l := rbl_prefix_len (r_ipv4 s) (r_ip s) in
+  match userconf_get_buffer (r_userdir s) fs fnb CfDomainOrInherit true true with
+  | UCrash => None
+  | UErr => Some (dplain s FError 0)
+  | UNone => Some (dplain s FPassed 0)
+  | UList t a =>
+      match doc_walk (usable_names l a) (r_dns s) false with
+      | (WNone, _) => Some (dplain s FPassed t)
+      | (WAgain, _) => Some (dplain s FDeniedTemp t)
+      | (WLocal, _) => Some (dplain s FError t)
+      | (WHit nm, dns') =>
+          let refuse := Some (mk_dout FDeniedMsg t (REPLY_DNSBL ++ nm ++ [13; 10]%N) (r_check2822 s)) in
+          match userconf_get_buffer (r_userdir s) fs fnw CfDomainvalid false false with
+          | UCrash => None
+          | UErr => Some (dplain s FError t)
+          | UNone => refuse
+          | UList _ c =>
+              match doc_walk (usable_names l c) dns' false with
+              | (WHit _, _) => Some (dplain s FPassed t)
+              | (WNone, _) => refuse
+              | (WAgain, _) => Some (dplain s FDeniedTemp t)
+              | (WLocal, _) => Some (dplain s FError t)
+              end
+          end
+      end
+  end.
+
+(** namebl: the domain of the sender and each of its parent domains (what follows a dot) is looked up in every list
+    of the effective namebl file, list by list; combinations too long for a DNS name are left out *)
+Definition namebl_queries (a : list bytes) (dom : bytes) : list bytes :=
+  flat_map (fun e => map (fun _ => e) (filter (fun d => Nat.ltb (length d + S (length e)) 256) (dom :: tails_after_dot dom))) a.
+
+Definition doc_namebl (s : rsession) (fs : fsys) : option dout :=
+  match r_mailfrom s with
+  | [] => Some (dplain s FPassed 0)
+  | mf =>
+      match split_addr mf with
+      | None => None
+      | Some (_, dom) =>
+          match userconf_get_buffer (r_userdir s) fs NAME_NAMEBL CfDomainOrInherit true true with
+          | UCrash => None
+          | UErr => Some (dplain s FError 0)
+          | UNone => Some (dplain s FPassed 0)
+          | UList t a =>
+              match doc_walk (namebl_queries a dom) (r_dns s) false with
+              | (WHit nm, _) => Some (mk_dout FDeniedMsg t (REPLY_NAMEBL ++ nm ++ [13; 10]%N) (r_check2822 s))
+              | (WLocal, _) => Some (dplain s FError t)
+              | (WAgain, _) => Some (dplain s FDeniedTemp t)
+              | (WNone, _) => Some (dplain s FPassed t)
+              end
+          end
+      end
+  end.
+
 (* ------------------------------------------------------------------------------------------------ *)
 (** * The checker that runs on the C outputs of the rfilters engine *)
 
@@ -266,6 +342,8 @@ Definition doc_filter (id : N) (s : rsession) (fs : fsys) (uc dc gc : list bytes
   else if N.eqb id ID_FORCEESMTP then doc_forceesmtp s fs
   else if N.eqb id ID_BADCC then doc_badcc s fs
   else if N.eqb id ID_NOMAIL then doc_nomail s fs
+  else if N.eqb id ID_DNSBL then doc_dnsbl s fs
+  else if N.eqb id ID_NAMEBL then doc_namebl s fs
   else None.
 
 (** what the harness prints: result, *t (only for a refusal), own reply, check2822 *)
@@ -295,6 +373,7 @@ Definition rf_doc_case (id : N) (misc mailfrom helo ip rcpts dns : bytes) (files
   if has_nul mailfrom || has_nul helo || has_nul rcpts || negb (Nat.eqb (length ip) 16)
      || match helo with [] => true | _ => false end || Nat.ltb 60 (length files)
      || negb (bytes_okb ip) || negb (forallb bytes_okb files)            (* octets *)
+     || (N.ltb 4 (m 4) && negb (N.eqb (m 4) 234))
   then None else
   match decode_files userdir files with
   | None => None
@@ -302,7 +381,8 @@ Definition rf_doc_case (id : N) (misc mailfrom helo ip rcpts dns : bytes) (files
       match conf_of fs 2, (if userdir then conf_of fs 0 else Some []), conf_of fs 1 with
       | Some gc, Some uc, Some dc =>
           let s := mk_rsession userdir (N.testbit (m 0) 1) (N.testbit (m 0) 2) (N.testbit (m 0) 3) (N.testbit (m 0) 4)
-                               (N.land (m 1) 7) (N.land (m 2) 3) mailfrom helo ip (split_lf rcpts []) dns in
+                               (N.land (m 1) 7) (N.land (m 2) 3) mailfrom helo ip (split_lf rcpts []) dns
+                               (if N.eqb (m 4) 234 then (-22)%Z else Z.of_N (m 4)) in
           option_map obs_of_dout (doc_filter id s fs uc dc gc)
       | _, _, _ => None
       end
